@@ -63,9 +63,13 @@ StepBad(e, A, Ful) ==
              \/ (e.op = "close" /\ res = "already" /\ ~oFul)
              \/ ("closed" \in DOMAIN e /\ e.closed # Ful)
       c17 == \/ ("term" \in DOMAIN e /\ e.term # SetToSortedSeq({f \in Slots : A[f] = "done"}))
+             \* threaded runs report is_terminated() of the polled future only
+             \/ ("fterm" \in DOMAIN e /\ e.op = "poll" /\ e.fterm # (A[e.r] = "done"))
              \/ (e.op = "poll_done" /\ res # "panic")
       c18 == "alloc" \in DOMAIN e /\ e.alloc # 0
-  IN (IF c01 THEN {"C01"} ELSE {}) \cup (IF c11 THEN {"C11"} ELSE {}) \cup (IF c12 THEN {"C12"} ELSE {})
+      \* a threaded run in which every task ended up parked: a lost wake-up
+      cdl == e.op = "abort" /\ "res" \in DOMAIN e /\ e.res = "deadlock"
+  IN (IF cdl THEN {"C12"} ELSE {}) \cup (IF c01 THEN {"C01"} ELSE {}) \cup (IF c11 THEN {"C11"} ELSE {}) \cup (IF c12 THEN {"C12"} ELSE {})
      \cup (IF c17 THEN {"C17"} ELSE {}) \cup (IF c18 THEN {"C18"} ELSE {})
 
 ObsStep(e) ==
